@@ -1214,4 +1214,140 @@ example : TilesLen [{ start := 0, stop := 1, isPhrase := false, text := [97] }, 
 
 end EditorBounded
 
+
+/-! ## linked (round 2): the tiling hypothesis only AT the state where the auto-commit runs
+
+`TilingEnv` quantifies over every composition and dictionary; C03 proves the tiling for VALID compositions
+(`CompValid`) over well-formed dictionaries only.  The theorems above are restated here with the hypothesis at
+the one shared state the auto-commit converts (`TilingAt`); `Proofs/EditorLink.lean` derives `TilingAt` from
+C01's reachable-state invariant (`Link.tilingAt_of_shInv`), and `Props/C18.lean` (section "linked") states the
+bound without any tiling premise (`C18.bounded_after_key_linked`, `C18.buffer_bounded_along`: this file cannot
+import C01, whose proofs import it). -/
+
+section Linked
+variable {D L : Type} (env : Env D L)
+
+/-- `TilingEnv` at ONE shared state: every alternative the engine returns for THIS composition, dictionary
+    and engine covers the buffer -/
+def TilingAt (sh : Shared D L) : Prop :=
+  ∀ paths, env.convert sh.engine sh.dict sh.com.inner = .ok paths → ∀ ivs ∈ paths, TilesLen ivs sh.com.inner.len
+
+theorem TilingEnv.tilingAt (ht : TilingEnv env) (sh : Shared D L) : TilingAt env sh :=
+  fun paths hp ivs hm => ht _ _ _ paths hp ivs hm
+
+/-- `tryAutoCommit_bound` with the hypothesis at the converted state only -/
+theorem tryAutoCommit_bound_at {sh sh2 : Shared D L} (ht : TilingAt env sh) (h : Shared.tryAutoCommit env sh = .ok sh2) :
+    sh2.com.len ≤ sh2.options.autoCommitThreshold ∧ sh2.options = sh.options ∧
+    ∃ n, sh2.com.symbols = sh.com.symbols.drop n ∧ sh2.com.cursor = sh.com.cursor - n := by
+  unfold Shared.tryAutoCommit at h
+  dsimp only at h
+  split at h
+  · next hle => cases h; exact ⟨hle, rfl, 0, by simp, rfl⟩
+  · next hgt =>
+    split at h
+    · cases h
+    · cases h
+    · rename_i ivs hc
+      obtain ⟨paths, hp, hm⟩ := conversion_mem env hc
+      obtain ⟨hwf, hsum⟩ := ht paths hp ivs hm
+      obtain ⟨buf', r', h1, _, h3, h4⟩ :=
+        autoCommitTake_bound sh.com.len sh.options.autoCommitThreshold ivs [] 0 hwf (by rw [Nat.zero_add]; exact hsum)
+      rw [h1] at h
+      dsimp only at h
+      split at h
+      · rename_i com hq
+        cases h
+        obtain ⟨_, hs, hcur, _⟩ := remove_front_frame _ _ _ hq
+        refine ⟨?_, rfl, r', hs, hcur⟩
+        show com.inner.symbols.length ≤ _
+        have : com.inner.symbols = sh.com.inner.symbols.drop r' := hs
+        rw [this, List.length_drop]
+        exact h4
+      · cases h
+      · cases h
+
+/-- `tryAutoCommit_total` with the hypothesis at the converted state only -/
+theorem tryAutoCommit_total_at (sh : Shared D L) (ht : TilingAt env sh) (hc : CompInv sh.com.inner)
+    {ivs : List Interval} (hconv : Shared.conversion env sh = .ok ivs) :
+    ∃ sh2, Shared.tryAutoCommit env sh = .ok sh2 := by
+  unfold Shared.tryAutoCommit
+  dsimp only
+  split
+  · exact ⟨_, rfl⟩
+  · rw [hconv]
+    dsimp only
+    obtain ⟨paths, hp, hm⟩ := conversion_mem env hconv
+    obtain ⟨hwf, hsum⟩ := ht paths hp ivs hm
+    obtain ⟨buf', r', h1, _, h3, _⟩ :=
+      autoCommitTake_bound sh.com.len sh.options.autoCommitThreshold ivs [] 0 hwf (by rw [Nat.zero_add]; exact hsum)
+    rw [h1]
+    dsimp only
+    have := (remove_front_ok_iff sh.com r' hc).mpr h3
+    obtain ⟨com, hq⟩ := this
+    rw [hq]
+    exact ⟨_, rfl⟩
+
+/-- **the bound after any key that ends in `Entering`** with *absorb* or *commit*, from ANY state, with the
+    tiling hypothesis only at the state the key's state-machine part leaves (`dispatch`): generalises
+    `bounded_after_absorb`, `bounded_after_key`, `bounded_after_key_syllable` -/
+theorem bounded_after_key_at {e e' : Editor D L} {ev : KeyEvent} {b : KB}
+    (ht : ∀ sh st, dispatch env e ev = .ok (sh, st) → TilingAt env sh)
+    (hs : e.state = .entering ∨ e.state = .enteringSyllable ∨ b = .absorb)
+    (h : e.processKey env ev = .ok (e', b)) (he : e'.state = .entering) (hb : b = .absorb ∨ b = .commit) :
+    e'.shared.com.len ≤ e'.shared.options.autoCommitThreshold := by
+  obtain ⟨sh, st, hd, h2⟩ := processKey_split env h
+  obtain ⟨hst, hbl, _⟩ := tail_spec env h2
+  obtain ⟨sh2, h1, hcom, hopt, _, hlast, _⟩ := tail_com env h2
+  rw [hcom, hopt]
+  split at h1
+  · exact (tryAutoCommit_bound_at env (ht sh st hd) h1).1
+  · next hn =>
+    cases h1
+    have hl : sh.last = b := by rw [← hlast]; exact hbl.symm
+    rcases hb with rfl | rfl
+    · exfalso
+      apply hn
+      rw [← hst, he, hl]
+      rfl
+    · rcases hs with hs | hs | hs
+      · rw [dispatch_entering_eq env ev hs] at hd
+        obtain ⟨⟨sh', t⟩, hr, hx⟩ := map_ok hd
+        have hcs := cstep_enteringNext env (preamble e.shared) ev sh' t hr
+        cases t with
+        | toState s =>
+          simp only [applyTrans] at hx; injection hx with h3 h4; subst h3
+          cases hl
+        | spin b' =>
+          simp only [applyTrans] at hx; injection hx with h3 h4; subst h3
+          have : b' = .commit := hl
+          subst this
+          have hem := hcs.1 rfl
+          have h0 : sh'.com.len = 0 := by
+            have h1 : (sh'.com.inner.len == 0) = true := hem
+            exact eq_of_beq h1
+          show sh'.com.len ≤ _
+          omega
+      · exfalso
+        rw [dispatch_syllable_eq env ev hs] at hd
+        obtain ⟨⟨sh', t⟩, hr, hx⟩ := map_ok hd
+        have hnc := nocommit_enteringSyllableNext env (preamble e.shared) ev sh' t hr
+        cases t with
+        | toState s =>
+          simp only [applyTrans] at hx; injection hx with h3 h4; subst h3
+          cases hl
+        | spin b' =>
+          simp only [applyTrans] at hx; injection hx with h3 h4; subst h3
+          have : b' = .commit := hl
+          subst this
+          exact hnc rfl
+      · cases hs
+
+/-- the global hypothesis is a special case -/
+example (ht : TilingEnv env) {e e' : Editor D L} {ev : KeyEvent} {b : KB} (hs : e.state = .entering)
+    (h : e.processKey env ev = .ok (e', b)) (he : e'.state = .entering) (hb : b = .absorb ∨ b = .commit) :
+    e'.shared.com.len ≤ e'.shared.options.autoCommitThreshold :=
+  bounded_after_key_at env (fun sh _ _ => ht.tilingAt env sh) (Or.inl hs) h he hb
+
+end Linked
+
 end Chewing.C05
